@@ -118,10 +118,25 @@ def cache_key_unit():
     return out
 
 
+def _loader_signatures():
+    """the call interface of the loaders and the cache functions: which argument is the cache (callers pass it second to from_vasprun)"""
+    tree = _parse('trajectory.py')
+    want = {'from_vasprun': (['cls', 'xml_file', 'cache', 'constant_lattice'], [], ['None', 'True']),
+            'from_lammps': (['cls'], ['coords_file', 'data_file', 'temperature', 'time_step', 'coords_format', 'atom_style', 'type_mapping', 'cache', 'constant_lattice'], []),
+            'from_gromacs': (['cls'], ['topology_file', 'coords_file', 'constant_lattice', 'temperature', 'extract_edr', 'edr_file', 'cache'], []),
+            'from_cache': (['cls', 'cache'], [], []), 'to_cache': (['self', 'cache'], [], [])}
+    for fn, (pos, kwo, dfl) in want.items():
+        a = _find_func(tree, 'Trajectory', fn).args
+        got = ([x.arg for x in a.args], [x.arg for x in a.kwonlyargs], [ast.unparse(d) for d in a.defaults])
+        if got != (pos, kwo, dfl):
+            raise Unsupported(f'{fn}: call interface changed: positional {got[0]}, keyword-only {got[1]}, defaults {got[2]}')
+
+
 def gen_cache_key():
     os.makedirs(GEN, exist_ok=True)
     try:
         info = cache_key_unit()
+        _loader_signatures()
     except Unsupported as e:
         return ('cachekey', False, f'translator: unsupported {e}'), None
     lines = ['(* GENERATED from /repo/src/gemdat/trajectory.py on every run -- do not edit *)',
